@@ -33,13 +33,13 @@ The library satisfies this property (implemented mainly in: {anchors}):
 
 You have TWO independent tasks. Read the relevant source first (including the helpers and callers of the main functions; the property usually depends on more than one function).
 
-TASK A — three BREAKING changes. Produce 3 different small source changes, each of which makes the library violate the property above for some inputs while (1) the library still imports and (2) the full test-suite still passes (244 passed). Each should look like something a maintainer could plausibly commit (an "optimisation", a "simplification", a well-meant "fix", a refactoring that is subtly not equivalent, a new convenience feature with a side effect), and needs something specific to manifest (a particular shape of input, an option, an order of operations, a history of calls) — not a change that breaks every use. They must differ from each other in mechanism and location; at least one of them should be in a helper, caller or sibling of the most obvious function rather than in that function itself. They should NOT repeat these earlier ones: {"; ".join(earlier) or "(none)"}.
+TASK A — three BREAKING changes. Produce 3 different small source changes, each of which makes the library violate the property above for some inputs while (1) the library still imports and (2) the full test-suite still passes (244 passed). Each should look like something a maintainer could plausibly commit (an "optimisation", a "simplification", a well-meant "fix", a refactoring that is subtly not equivalent, a new convenience feature with a side effect), and needs something specific to manifest (a particular shape of input, an option, an order of operations, a history of calls) — not a change that breaks every use. They must differ from each other in mechanism and location; at least one of them should be in a helper, caller or sibling of the most obvious function rather than in that function itself, and at least one should involve state that outlives a call (a cache, a registry, a class attribute, an object reused between calls) or an error path. They should NOT repeat these earlier ones: {"; ".join(earlier) or "(none)"}.
 For each k = 1..3 create {out}/seed$k containing:
   - patch.diff : `git diff` against the clean worktree HEAD (must apply with `git apply` in a clean checkout),
   - demo.py    : a self-contained script (run as `PYTHONPATH=src /venv/bin/python demo.py` from the worktree root) that exits 0 on the clean tree and exits 1 (printing what went wrong) with the patch applied — it demonstrates the violation of the property through the public API,
   - notes.md   : first line a one-line title; then what was changed, why it breaks the property, what is needed for it to manifest, and the test-suite result with the patch (must be 244 passed).
 
-TASK B — four behaviour-PRESERVING refactorings (the opposite of task A). Produce 4 different refactorings of code that implements this property, the kind of clean-up a maintainer would do in a normal pull request, each leaving the observable behaviour exactly the same for EVERY input (not only for the tests). Be bolder than cosmetic renames — restructure, and combine two or three techniques in each refactoring — but stay strictly equivalent. Use a varied mix across the four, e.g.: extract a private helper function or method (also with several return statements, also a generator or a small private class / NamedTuple) or inline one; split a long function into steps; merge duplicated branches; replace a loop by a comprehension / any() / all() / next() / itertools or the other way round; turn nested if/else into guard clauses, `match` statements or a lookup table; introduce or remove intermediate locals; rename locals and private helpers; reorder independent statements; keyword vs positional arguments; conditional expressions vs if statements; walrus operator; `dict.setdefault` / `dict.get` / `try: d[k] except KeyError` forms; f-strings vs concatenation vs `str.join` / `str.format`; tuple unpacking in loop headers; `for ... else`; `while` vs `for`; early `continue`; add logging, comments, asserts on things that are always true, or type annotations; move a constant to module level; de Morgan / inverted conditions.
+TASK B — four behaviour-PRESERVING refactorings (the opposite of task A). Produce 4 different refactorings of code that implements this property, the kind of clean-up a maintainer would do in a normal pull request, each leaving the observable behaviour exactly the same for EVERY input (not only for the tests). Be bolder than cosmetic renames — restructure, and combine two or three techniques in each refactoring — but stay strictly equivalent. At least one of the four should be a from-scratch re-implementation of one function in your own style (different control structure, different intermediate data, same observable behaviour), and at least one should touch two functions or two modules that cooperate. Use a varied mix across the four, e.g.: extract a private helper function or method (also with several return statements, also a generator or a small private class / NamedTuple) or inline one; split a long function into steps; merge duplicated branches; replace a loop by a comprehension / any() / all() / next() / itertools or the other way round; turn nested if/else into guard clauses, `match` statements or a lookup table; introduce or remove intermediate locals; rename locals and private helpers; reorder independent statements; keyword vs positional arguments; conditional expressions vs if statements; walrus operator; `dict.setdefault` / `dict.get` / `try: d[k] except KeyError` forms; f-strings vs concatenation vs `str.join` / `str.format`; tuple unpacking in loop headers; `for ... else`; `while` vs `for`; early `continue`; add logging, comments, asserts on things that are always true, or type annotations; move a constant to module level; de Morgan / inverted conditions.
 Do NOT change public signatures or behaviour in any corner case (falsy nodes that define __len__/__bool__, twin nodes with equal content, None vs empty tuple, exceptions raised and their types and messages, order of results, recursion depth limits). If you are not sure a rewrite is equivalent for all inputs, do not use it.
 For each k = 1..4 create {out}/ref$k containing:
   - patch.diff : `git diff` against the clean worktree HEAD,
